@@ -614,6 +614,46 @@ MUTANTS = {
         E("qkeras/autoqkeras/forgiving_metrics/forgiving_bits.py",
           "    super().__init__(delta_p, delta_n, rate)\n",
           "    super().__init__(delta_n, delta_p, rate)\n")]),
+    # --- round 13 ---------------------------------------------------------
+    # training arm of stochastic_binary: the deterministic code the scale is
+    # fitted to keeps 0 for exact zeros (the zero -> +1 fix-up is dropped)
+    "m112_stochastic_binary_scale_code_keeps_zero": dict(expect=["C04"],
+                                                         edits=[
+        E("qkeras/quantizers.py",
+          "      q_non_stochastic += 1.0 - tf.abs(q_non_stochastic)\n",
+          "")]),
+    # the constant operand of an operator layer is looked up by substring
+    "m113_tfoplambda_constant_by_substring": dict(expect=["C15"], edits=[
+        E("qkeras/utils.py",
+          "    if op_name == layer.name and class_name == \"TFOpLambda\":\n",
+          "    if op_name in layer.name and class_name == \"TFOpLambda\":\n")]),
+    # merge / reshape counts over every known dimension (fixed batch size)
+    "m114_merge_count_includes_batch": dict(expect=["C19"], edits=[
+        E("qkeras/qtools/qtools_util.py",
+          "  if is_merge_layers(layer) or is_shape_alternation_layers(layer):\n"
+          "    operation_count = np.prod(input_shape[1:])\n",
+          "  if is_merge_layers(layer) or is_shape_alternation_layers(layer):\n"
+          "    operation_count = np.prod(\n"
+          "        [d for d in input_shape if d is not None])\n")]),
+    # limit entries scanned from the last written to the first
+    "m115_limit_entries_scanned_backwards": dict(expect=["C20"], edits=[
+        E("qkeras/autoqkeras/autoqkeras_internal.py",
+          "    for i, pattern in enumerate(self.limit):\n",
+          "    for i, pattern in enumerate(reversed(list(self.limit))):\n")]),
+    # the non-straight-through arm of quantized_relu_po2 forgets the
+    # quantization-noise factor on the pass-through term
+    "m116_relu_po2_non_ste_arm_drops_sign": dict(expect=["C03"], edits=[
+        E("qkeras/quantizers.py",
+          "      return (1 - self.qnoise_factor) * x + tf.stop_gradient(\n"
+          "          self.qnoise_factor * xq)\n\n"
+          "  def max(self):\n"
+          "    \"\"\"Get the maximum value that quantized_relu_po2 can "
+          "represent.\"\"\"\n",
+          "      return (1 - self.qnoise_factor) * x + tf.stop_gradient(\n"
+          "          self.qnoise_factor * tf.abs(xq))\n\n"
+          "  def max(self):\n"
+          "    \"\"\"Get the maximum value that quantized_relu_po2 can "
+          "represent.\"\"\"\n")]),
     "m95_po2_operand_converted_in_place": dict(expect=["C17"], edits=[
         E(QO + "adder_factory.py",
           "    local_quantizer_1 = copy.deepcopy(quantizer_1)\n"
@@ -995,6 +1035,30 @@ BENIGN = {
                                       edits=os.path.join(
         os.path.dirname(os.path.abspath(__file__)), "benign_patches",
         "b45_po2_max_value_setters.diff")),
+    # --- round 13 ---------------------------------------------------------
+    "b51_tfoplambda_test_reordered": dict(props=["C15"], edits=[
+        E("qkeras/utils.py",
+          "    if op_name == layer.name and class_name == \"TFOpLambda\":\n",
+          "    if class_name == \"TFOpLambda\" and layer.name == op_name:\n")]),
+    "b52_merge_count_from_a_list": dict(props=["C19"], edits=[
+        E("qkeras/qtools/qtools_util.py",
+          "  if is_merge_layers(layer) or is_shape_alternation_layers(layer):\n"
+          "    operation_count = np.prod(input_shape[1:])\n",
+          "  if is_merge_layers(layer) or is_shape_alternation_layers(layer):\n"
+          "    operation_count = np.prod(list(input_shape)[1:])\n")]),
+    "b53_limit_entries_from_a_list": dict(props=["C20"], edits=[
+        E("qkeras/autoqkeras/autoqkeras_internal.py",
+          "    for i, pattern in enumerate(self.limit):\n",
+          "    for i, pattern in enumerate(list(self.limit)):\n")]),
+    # the deterministic code of the training arm through a local helper
+    "b54_stochastic_binary_code_helper": dict(props=["C04"], edits=[
+        E("qkeras/quantizers.py",
+          "      q_non_stochastic = tf.sign(x)\n"
+          "      q_non_stochastic += 1.0 - tf.abs(q_non_stochastic)\n",
+          "      def _code(v):\n"
+          "        s = tf.sign(v)\n"
+          "        return s + (1.0 - tf.abs(s))\n"
+          "      q_non_stochastic = _code(x)\n")]),
     # the defensive copies are not needed as long as the implementations do
     # not write to their operands: dropping them changes nothing observable
     "b43_adder_without_defensive_copy": dict(props=["C17", "C18"], edits=[E(
